@@ -1261,7 +1261,9 @@ class Interp:
             conc = lambda x: isinstance(x, (Const, tuple, ClassV))
             if conc(na) and conc(nb):
                 return [(st, (na == nb) != neg, None)]
-            if isinstance(a, Obj) and isinstance(b, Const) and b.v is None:
+            if isinstance(a, (Obj, Packed)) and isinstance(b, Const) and b.v is None:
+                return [(st, neg, None)]          # an object / the bytes of a packed message are never None
+            if isinstance(b, (Obj, Packed)) and isinstance(a, Const) and a.v is None:
                 return [(st, neg, None)]
             if isinstance(a, Obj) and isinstance(b, Obj):
                 return [(st, (a is b) != neg, None)]
